@@ -194,8 +194,14 @@ func Normalize(fset *token.FileSet, pkgs []*packages.Package, all map[string]*pa
 			n.collectLits(di.d, di.pk, di.f, knownLits[di.pk.PkgPath])
 		}
 	}
+	// a table of functions that is only ranged over and called is a sequence of calls
+	if knownLits != nil {
+		for _, di := range decls {
+			n.unrollFuncTables(di.d, di.pk)
+		}
+	}
 	sort.Strings(n.res.NewFuncs)
-	if len(n.helpers) == 0 && len(n.lits) == 0 {
+	if len(n.helpers) == 0 && len(n.lits) == 0 && len(n.rew) == 0 {
 		return n.res, nil
 	}
 	for _, h := range n.helpers {
@@ -450,7 +456,9 @@ func (n *normalizer) rewriteDecl(d *ast.FuncDecl, pk *packages.Package, f *ast.F
 	saved := copyNode(d).(*ast.FuncDecl)
 	d.Body.List = r.block(d.Body.List)
 	if r.any {
-		n.origDecl[d] = saved
+		if n.origDecl[d] == nil {
+			n.origDecl[d] = saved
+		}
 		n.rew[d] = true
 		n.res.Changed[pk] = true
 	}
@@ -1905,5 +1913,147 @@ func (n *normalizer) collectLits(d *ast.FuncDecl, pk *packages.Package, f *ast.F
 		n.vet(h)
 		n.lits[c.v] = h
 		n.res.NewFuncs = append(n.res.NewFuncs, key)
+	}
+}
+
+
+// unrollFuncTables rewrites
+//
+//	tbl := []func() error{a.f, a.g, h}
+//	for _, fn := range tbl { ...fn()... }
+//
+// into one copy of the loop body per element with the call spelled out (a.f(), a.g(), h()), when the table has no
+// other use, the loop variable is only ever called, and the body neither breaks, continues, defers nor declares
+// the variable's name again. The rules then see the calls where they saw them before the table was introduced.
+func (n *normalizer) unrollFuncTables(d *ast.FuncDecl, pk *packages.Package) {
+	info := pk.TypesInfo
+	var saved *ast.FuncDecl
+	usesOf := func(v *types.Var) int {
+		k := 0
+		ast.Inspect(d.Body, func(x ast.Node) bool {
+			if id, ok := x.(*ast.Ident); ok && info.Uses[id] == types.Object(v) {
+				k++
+			}
+			return true
+		})
+		return k
+	}
+	var blocks []*ast.BlockStmt
+	ast.Inspect(d.Body, func(x ast.Node) bool {
+		if b, ok := x.(*ast.BlockStmt); ok {
+			blocks = append(blocks, b)
+		}
+		return true
+	})
+	for _, b := range blocks {
+		for idx := 0; idx < len(b.List); idx++ {
+			rs, ok := b.List[idx].(*ast.RangeStmt)
+			if !ok || rs.Tok != token.DEFINE || rs.Value == nil {
+				continue
+			}
+			if k, ok := rs.Key.(*ast.Ident); !ok || k.Name != "_" {
+				continue
+			}
+			valID, ok := rs.Value.(*ast.Ident)
+			if !ok || valID.Name == "_" {
+				continue
+			}
+			tblID, ok := rs.X.(*ast.Ident)
+			if !ok {
+				continue
+			}
+			tv, _ := info.Uses[tblID].(*types.Var)
+			pv, _ := info.Defs[valID].(*types.Var)
+			if tv == nil || pv == nil || usesOf(tv) != 1 {
+				continue
+			}
+			// the table's definition, earlier in the same block
+			var def *ast.AssignStmt
+			var lit *ast.CompositeLit
+			for _, s := range b.List[:idx] {
+				as, ok := s.(*ast.AssignStmt)
+				if !ok || as.Tok != token.DEFINE || len(as.Lhs) != 1 || len(as.Rhs) != 1 {
+					continue
+				}
+				if id, ok := as.Lhs[0].(*ast.Ident); ok && info.Defs[id] == types.Object(tv) {
+					if cl, ok := as.Rhs[0].(*ast.CompositeLit); ok {
+						def, lit = as, cl
+					}
+				}
+			}
+			if def == nil || len(lit.Elts) == 0 {
+				continue
+			}
+			if st, ok := info.TypeOf(lit).Underlying().(*types.Slice); !ok {
+				continue
+			} else if _, isSig := st.Elem().Underlying().(*types.Signature); !isSig {
+				continue
+			}
+			okElts := true
+			for _, e := range lit.Elts {
+				switch e.(type) {
+				case *ast.SelectorExpr, *ast.Ident:
+				default:
+					okElts = false
+				}
+			}
+			if !okElts {
+				continue
+			}
+			// the loop variable is only called; the body has no branch statements, defers, or a second declaration of the name
+			calls, all, clean := 0, 0, true
+			ast.Inspect(rs.Body, func(x ast.Node) bool {
+				switch y := x.(type) {
+				case *ast.CallExpr:
+					if id, ok := ast.Unparen(y.Fun).(*ast.Ident); ok && info.Uses[id] == types.Object(pv) {
+						calls++
+					}
+				case *ast.Ident:
+					if info.Uses[y] == types.Object(pv) {
+						all++
+					}
+					if y.Name == valID.Name && info.Defs[y] != nil {
+						clean = false
+					}
+				case *ast.BranchStmt, *ast.DeferStmt, *ast.LabeledStmt, *ast.GoStmt:
+					clean = false
+				}
+				return true
+			})
+			if !clean || calls == 0 || calls != all {
+				continue
+			}
+			if saved == nil {
+				saved = copyNode(d).(*ast.FuncDecl)
+			}
+			var unrolled []ast.Stmt
+			for _, e := range lit.Elts {
+				body := copyNode(rs.Body).(*ast.BlockStmt)
+				elt := e
+				ast.Inspect(body, func(x ast.Node) bool {
+					if c, ok := x.(*ast.CallExpr); ok {
+						if id, ok := ast.Unparen(c.Fun).(*ast.Ident); ok && id.Name == valID.Name {
+							c.Fun = copyNode(elt).(ast.Expr)
+						}
+					}
+					return true
+				})
+				unrolled = append(unrolled, body)
+			}
+			def.Lhs[0] = &ast.Ident{Name: "_", NamePos: def.Lhs[0].Pos()}
+			def.Tok = token.ASSIGN
+			def.Rhs[0] = &ast.BasicLit{Kind: token.INT, Value: "0", ValuePos: def.Rhs[0].Pos()}
+			nl := append([]ast.Stmt{}, b.List[:idx]...)
+			nl = append(nl, unrolled...)
+			nl = append(nl, b.List[idx+1:]...)
+			b.List = nl
+			idx += len(unrolled) - 1
+			n.res.Sites = append(n.res.Sites, Site{Caller: FuncKey(pk.PkgPath, d), Callee: "table " + tblID.Name, Pos: rs.For})
+		}
+	}
+	if saved != nil {
+		n.origDecl[d] = saved
+		n.rew[d] = true
+		n.res.Changed[pk] = true
 	}
 }
